@@ -39,6 +39,9 @@ pub enum V {
     BitsByte,
     TInt(i128),
     TReal(u64),
+    /// tagged in two steps (a second tag added to an already tagged value)
+    T2Int(i128),
+    T2Real(u64),
 }
 
 fn real(x: f64) -> V {
@@ -61,6 +64,8 @@ impl V {
             V::BitsByte => Cell::Bitstr(Xbitstr::from(vec![0xffu8])),
             V::TInt(i) => Cell::Int(*i).insert_tag(Cell::from("t"), Cell::Int(99)),
             V::TReal(b) => Cell::Real(f64::from_bits(*b)).insert_tag(Cell::from("t"), Cell::Int(99)),
+            V::T2Int(i) => Cell::Int(*i).insert_tag(Cell::from("t"), Cell::Int(99)).insert_tag(Cell::from("u"), Cell::Int(98)),
+            V::T2Real(b) => Cell::Real(f64::from_bits(*b)).insert_tag(Cell::from("t"), Cell::Int(99)).insert_tag(Cell::from("u"), Cell::Int(98)),
         }
     }
     fn class(&self) -> &'static str {
@@ -73,8 +78,8 @@ impl V {
             V::VecEmpty | V::VecOne => "vec",
             V::MapEmpty | V::MapOne => "map",
             V::BitsEmpty | V::BitsByte => "bitstr",
-            V::TInt(_) => "tagged-int",
-            V::TReal(_) => "tagged-real",
+            V::TInt(_) | V::T2Int(_) => "tagged-int",
+            V::TReal(_) | V::T2Real(_) => "tagged-real",
         }
     }
     fn describe(&self) -> String {
@@ -92,6 +97,8 @@ impl V {
             V::BitsByte => "Bitstr|FF|".into(),
             V::TInt(i) => format!("Int({}) tagged {{ 99 \"t\" }}", i),
             V::TReal(b) => format!("Real({:?}) tagged {{ 99 \"t\" }}", f64::from_bits(*b)),
+            V::T2Int(i) => format!("Int({}) tagged {{ 99 \"t\" }}, then tagged {{ 98 \"u\" }}", i),
+            V::T2Real(b) => format!("Real({:?}) tagged {{ 99 \"t\" }}, then tagged {{ 98 \"u\" }}", f64::from_bits(*b)),
         }
     }
     fn weight(&self) -> u64 {
@@ -119,8 +126,8 @@ enum Num {
 
 fn num(v: &V) -> Option<Num> {
     match v {
-        V::Int(i) | V::TInt(i) => Some(Num::I(*i)),
-        V::Real(b) | V::TReal(b) => Some(Num::R(f64::from_bits(*b))),
+        V::Int(i) | V::TInt(i) | V::T2Int(i) => Some(Num::I(*i)),
+        V::Real(b) | V::TReal(b) | V::T2Real(b) => Some(Num::R(f64::from_bits(*b))),
         _ => None,
     }
 }
@@ -499,6 +506,52 @@ pub fn run_case(base: &Xstate, word: &str, a: &Cell, b: Option<&Cell>, sentinel:
     }
 }
 
+/// the same, the operands and the word coming from source text (a sentinel below them)
+pub fn run_source(base: &Xstate, src: &str) -> Obs {
+    let mut xs = base.clone();
+    xs.push_data(Cell::from(SENTINEL)).unwrap();
+    match guarded(|| xs.eval(src)) {
+        Err(p) => Obs::Panic(p),
+        Ok(Err(e)) => Obs::Err(e),
+        Ok(Ok(())) => {
+            let depth = xs.data_depth();
+            let top = if depth > 1 { xs.get_data(0).cloned() } else { None };
+            let below_ok = depth == 2 && matches!(xs.get_data(1), Some(Cell::Str(s)) if s.as_str() == SENTINEL);
+            Obs::Done { depth, top, below_ok }
+        }
+    }
+}
+
+/// ways an integer operand reaches a word other than push_data: every one goes through the
+/// compiler's literal emission (decimal / hexadecimal text, inside a definition, computed in a
+/// meta block and emitted, a constant)
+pub const DELIVERY: [&str; 5] = ["decimal literal", "hex literal", "literal inside a definition", "computed in a meta block", "constant"];
+fn dec(v: i128) -> String {
+    v.to_string()
+}
+fn hex(v: i128) -> String {
+    if v < 0 { format!("-0x{:x}", v.unsigned_abs()) } else { format!("0x{:x}", v) }
+}
+pub fn delivery_src(form: usize, word: &str, a: i128, b: Option<i128>) -> String {
+    let ops = |f: &dyn Fn(i128) -> String| match b {
+        Some(b) => format!("{} {}", f(a), f(b)),
+        None => f(a),
+    };
+    match form {
+        0 => format!("{} {}", ops(&dec), word),
+        1 => format!("{} {}", ops(&hex), word),
+        2 => format!(": dlv {} {} ; dlv", ops(&dec), word),
+        3 => match b {
+            Some(b) => format!("#( {} #) #( {} #) {}", dec(a), dec(b), word),
+            None => format!("#( {} #) {}", dec(a), word),
+        },
+        _ => match b {
+            Some(b) => format!("#( {} const dka {} const dkb #) dka dkb {}", dec(a), dec(b), word),
+            None => format!("#( {} const dka #) dka {}", dec(a), word),
+        },
+    }
+}
+
 /// Ok(()) = conforms; Err(what) = violation description
 pub fn judge(exp: &Exp, obs: &Obs, a: &Cell, b: Option<&Cell>) -> Result<(), String> {
     let type_ok = |e: &Xerr| -> Result<(), String> {
@@ -636,7 +689,7 @@ fn type_reps() -> Vec<V> {
     vec![
         V::Nil, V::Flag(true), V::Flag(false), V::Int(0), V::Int(5), V::Int(-3), real(0.0), real(2.5), V::Str("a"), V::Str(""),
         V::VecEmpty, V::VecOne, V::MapEmpty, V::MapOne, V::BitsEmpty, V::BitsByte, V::TInt(7), V::TInt(0), V::TReal(1.5f64.to_bits()),
-        V::TReal(0.0f64.to_bits()),
+        V::TReal(0.0f64.to_bits()), V::T2Int(6), V::T2Real(2.5f64.to_bits()),
     ]
 }
 
@@ -893,6 +946,78 @@ pub fn run(cfg: &Cfg) -> i32 {
         tot_cmp.fetch_add(lo.compared, Ordering::Relaxed);
         tot_nt.fetch_add(lo.nontrivial, Ordering::Relaxed);
     });
+
+    // ---- delivery: an integer operand written in the source (or computed at compile time and emitted,
+    // or held by a constant) is the operand push_data delivers; exhaustive over the whole integer
+    // alphabet for the identity (`<literal>` alone) and over the boundary set squared for every word
+    let n_delivery = AtomicU64::new(0);
+    {
+        let bset: Vec<i128> = {
+            let mut s: BTreeSet<i128> = BTreeSet::new();
+            for k in [7u32, 31, 32, 63, 64, 126] {
+                let p = two_pow(k);
+                for v in [p - 1, p, p + 1] {
+                    s.insert(v);
+                    s.insert(-v);
+                }
+            }
+            for v in [0, 1, -1, i128::MAX, i128::MIN, i128::MIN + 1] {
+                s.insert(v);
+            }
+            s.into_iter().collect()
+        };
+        let words: Vec<(&str, u8)> = WORDS.iter().copied().collect();
+        par_run(cfg.threads, al.ints.len() + words.len() * bset.len(), 4, |_t, pull| {
+            let base = boot();
+            let mut n = 0u64;
+            let mut check = |word: &str, a: i128, b: Option<i128>, want: &Obs, push_desc: String| {
+                for form in 0..DELIVERY.len() {
+                    let src = delivery_src(form, word, a, b);
+                    let got = run_source(&base, &src);
+                    n += 1;
+                    if got.describe() != want.describe() {
+                        rep.report_w(&format!("delivery:{}", DELIVERY[form].replace(' ', "-")), (V::Int(a).weight() + b.map(|b| V::Int(b).weight()).unwrap_or(0)) << 8 | form as u64, || {
+                            jo(vec![
+                                ("kind", js("arith-delivery")),
+                                ("ops", J::A(vec![js(format!("push_data Str({:?})", SENTINEL)), js(format!("eval {:?}", src))])),
+                                ("observed", js(got.describe())),
+                                ("same_operands_delivered_by_push_data", js(push_desc.clone())),
+                                ("gives", js(want.describe())),
+                            ])
+                        });
+                    }
+                }
+            };
+            while let Some(r) = pull() {
+                for ti in r {
+                    if ti < al.ints.len() {
+                        // identity: the literal alone leaves exactly that integer
+                        let a = al.ints[ti];
+                        let want = Obs::Done { depth: 2, top: Some(Cell::Int(a)), below_ok: true };
+                        check("", a, None, &want, format!("push_data Int({})", a));
+                    } else {
+                        let k = ti - al.ints.len();
+                        let (word, arity) = words[k / bset.len()];
+                        let a = bset[k % bset.len()];
+                        if arity == 2 {
+                            for &b in &bset {
+                                let want = run_case(&base, word, &Cell::Int(a), Some(&Cell::Int(b)), true);
+                                check(word, a, Some(b), &want, format!("push_data Int({}); push_data Int({}); eval {:?}", a, b, word));
+                            }
+                        } else {
+                            let want = run_case(&base, word, &Cell::Int(a), None, true);
+                            check(word, a, None, &want, format!("push_data Int({}); eval {:?}", a, word));
+                        }
+                    }
+                }
+            }
+            n_delivery.fetch_add(n, Ordering::Relaxed);
+        });
+    }
+    tot_cases.fetch_add(n_delivery.load(Ordering::Relaxed), Ordering::Relaxed);
+    tot_evals.fetch_add(n_delivery.load(Ordering::Relaxed), Ordering::Relaxed);
+    ev.add("delivery_cases", ji(n_delivery.load(Ordering::Relaxed)));
+    ev.add("delivery_forms", J::A(DELIVERY.iter().map(|s| js(*s)).collect()));
 
     // vacuity checks: every word must have met every outcome class its semantics has
     for (w, arity) in WORDS {
